@@ -558,6 +558,86 @@ def check_counts(ctx, t: ch.Tables, cases: list[GraphCase]):
     ctx.note_batch("node-counts", n, dis, exhaustive=False)
 
 
+def check_dependency_mappers(ctx, cases):
+    """DependencyMapper ("returns every node in the graph": every array of the outer namespace reachable from the
+    argument INCLUDING the argument itself — find_distributed_partition looks a send buffer up in its own dependency
+    set), SubsetDependencyMapper (= intersection with the universe), InputGatherer / SizeParamGatherer: vs the
+    reflective closure, on one probe of every node kind and on every sub-expression of the graph cases"""
+    from pytato.array import Array, InputArgumentBase, SizeParam
+    from pytato.transform import DependencyMapper, InputGatherer, SizeParamGatherer, SubsetDependencyMapper
+    from ..gen import kinds
+    roots = []
+    for name, ks in kinds.specs().items():
+        if isinstance(ks.base, Array):
+            roots.append((f"probe:{name}", ks.base))
+    for case in cases[:40]:
+        g = case.graph
+        for n in list(reflect.walk(g, into_functions=False))[:60]:
+            if isinstance(n, Array):
+                roots.append((f"{case.spec}", n))
+    n = dis = 0
+    seen_kinds = Counter()
+    for label, root in roots:
+        n += 1
+        seen_kinds[type(root).__name__] += 1
+        arrays = [m for m in reflect.walk(root, into_functions=False) if isinstance(m, Array)]
+        want = {id(m) for m in arrays}
+        try:
+            got_nodes = DependencyMapper()(root)
+        except Exception as e:   # noqa: BLE001
+            dis += 1
+            ctx.violation(f"dependencies:raises:{type(root).__name__}:{type(e).__name__}",
+                          f"DependencyMapper on a {type(root).__name__} ({label}) raised {type(e).__name__}: {e}", {"graph": label})
+            continue
+        got = {id(m) for m in got_nodes}
+        # equal nodes: compare up to ==
+        missing = [m for m in arrays if id(m) not in got and not any(m == q for q in got_nodes)]
+        extra = [m for m in got_nodes if id(m) not in want and not any(m == q for q in arrays)]
+        if missing or extra:
+            dis += 1
+            kind = type(missing[0]).__name__ if missing else type(extra[0]).__name__
+            self_missing = any(m is root for m in missing)
+            ctx.violation(f"dependencies:{'self-' if self_missing else ''}{'missing' if missing else 'extra'}:{kind}",
+                          f"DependencyMapper on a {type(root).__name__} ({label}): "
+                          + (f"does not contain {[type(m).__name__ for m in missing][:4]}"
+                             + (" — among them the node ITSELF" if self_missing else "") if missing else
+                             f"contains {[type(m).__name__ for m in extra][:4]} which the node does not depend on"),
+                          {"graph": label, "root": type(root).__name__})
+            continue
+        # subset mapper: universe = every second array
+        uni = frozenset(arrays[::2])
+        sub = SubsetDependencyMapper(uni)(root)
+        if {id(m) for m in sub} != {id(m) for m in got_nodes if m in uni}:
+            dis += 1
+            ctx.violation(f"dependencies:subset-differs:{type(root).__name__}",
+                          f"SubsetDependencyMapper on a {type(root).__name__} ({label}) is not DependencyMapper ∩ universe",
+                          {"graph": label})
+        inputs = {id(m) for m in arrays if isinstance(m, InputArgumentBase)}
+        try:
+            ig = {id(m) for m in InputGatherer()(root)}
+            sg = {m.name for m in SizeParamGatherer()(root)}
+        except Exception as e:   # noqa: BLE001
+            dis += 1
+            ctx.violation(f"dependencies:gatherer-raises:{type(root).__name__}:{type(e).__name__}",
+                          f"InputGatherer/SizeParamGatherer on a {type(root).__name__} ({label}) raised: {e}", {"graph": label})
+            continue
+        if not (ig <= inputs | ig and {id(m) for m in arrays if isinstance(m, InputArgumentBase)} - ig == set()
+                or any(isinstance(m, InputArgumentBase) for m in arrays) is False):
+            pass
+        lost = [m for m in arrays if isinstance(m, InputArgumentBase) and id(m) not in ig
+                and not any(m == q for q in InputGatherer()(root))]
+        if lost:
+            dis += 1
+            ctx.violation(f"dependencies:input-gatherer-misses:{type(lost[0]).__name__}",
+                          f"InputGatherer on a {type(root).__name__} ({label}) misses {[type(m).__name__ for m in lost][:3]}",
+                          {"graph": label})
+        if sg != {m.name for m in arrays if isinstance(m, SizeParam)}:
+            dis += 1
+            ctx.violation(f"dependencies:size-param-gatherer-differs:{type(root).__name__}",
+                          f"SizeParamGatherer on a {type(root).__name__} ({label}) gives {sorted(sg)}", {"graph": label})
+    ctx.note_batch("dependency-mappers-vs-reflective-closure", n, dis, exhaustive=False, root_kinds=dict(seen_kinds))
+
+
 def _fd_called_from_a_body(case: GraphCase, fd: int) -> bool:
     v = case.v
     return any(v.kind(i) == "Call" and any(k != -1 for k in case.ns[i])
@@ -764,6 +844,7 @@ def run(ctx: common.Ctx):
     check_tagcounts(ctx, t, cases)
     check_materialized(ctx, t, cases)
     check_misc(ctx, t, cases)
+    check_dependency_mappers(ctx, cases)
     for th in THEOREMS[:4]:
         ctx.sample({"theorem": th})
     ctx.sample({"graph": cases[-3].spec, "nodes": len(cases[-3].v.nodes)})
